@@ -23,7 +23,9 @@ CLASSES = {"Wildcard": Wildcard, "Address": Address, "AddressAg": AddressAg,
 IMMUTABLE = (str, int, float, bool, type(None), IPv4Network, IPv4Address, SwVersion, bytes)
 HAS_EQ = {"Address", "AddressAg", "AddrGroup", "Port", "Protocol", "Option", "Remark", "Ace",
           "AceGroup", "Acl"}
-NOTES = ["", "n1", ["list", "note"], {"k": ["v"]}, ["x", {"y": 1}]]
+NOTES = ["", "n1", ["list", "note"], {"k": ["v"]}, ["x", {"y": 1}], 0, [], {}, False]
+# notes for the parts of an entry (falsy values are legal notes too)
+SUBNOTES = [{"sub": "src"}, 0, [], {}, False, "s", 0.0]
 
 
 def walk_mutable(obj, seen=None, path="", out=None):
@@ -241,6 +243,8 @@ class ObjMachine(Machine):
             return dict(op="retitle", t=t, arg=s.randint(0, 99))
         if r < 0.68:
             return dict(op="interleave", t=t, arg=s.randint(0, 99))
+        if r < 0.72:
+            return dict(op="insert_regroup", t=t, arg=s.randint(0, 99))
         kind = s.choice(["platform", "platform", "port_nr", "protocol_nr", "type", "resequence",
                          "sort", "group", "ungroup", "platform_same", "type_std", "group_coarse"])
         return dict(op="transform", t=t, kind=kind, arg=s.randint(0, 99))
@@ -402,7 +406,12 @@ class ObjMachine(Machine):
                     addr.items = list(op["members"][addr.addrgroup])
             if op["subnote"]:
                 leaf.note = ["leaf-note", leaf.line[:10]]
-                leaf.srcaddr.note = {"sub": "src"}
+                if isinstance(leaf, Ace):
+                    k_ = op["note"]
+                    leaf.srcaddr.note = copy_mod.deepcopy(SUBNOTES[k_ % len(SUBNOTES)])
+                    leaf.dstport.note = copy_mod.deepcopy(SUBNOTES[(k_ + 1) % len(SUBNOTES)])
+                    leaf.option.note = copy_mod.deepcopy(SUBNOTES[(k_ + 2) % len(SUBNOTES)])
+                    leaf.protocol.note = copy_mod.deepcopy(SUBNOTES[(k_ + 3) % len(SUBNOTES)])
         if op["cls"] == "Address" and obj.type == "addrgroup" and obj.addrgroup in op["members"]:
             obj.items = list(op["members"][obj.addrgroup])
         if op["cls"] == "AddrGroup" and op["subnote"]:
@@ -655,6 +664,50 @@ class ObjMachine(Machine):
         ace = self._pick_ace(o, arg)
         if ace is not None:
             ace.option.line = "log"
+
+    def _op_insert_regroup(self, op):
+        """A plain entry inserted between / in front of the blocks of a grouped ACL through the
+        list API, then an operation that regroups: every block that still starts with the same
+        entry is the same block (identifier, note)."""
+        slot = self._slot(op["t"])
+        if slot is None or slot["cls"] != "Acl":
+            return "noop"
+        x = slot["obj"]
+        if not x.group_by or not any(isinstance(it, AceGroup) and it.items for it in x.items):
+            return "noop"
+        before = self._idmap(x, "Acl")
+        line = "permit ip any any" if op["arg"] % 2 else "remark loose"
+        try:
+            new = Ace(line, platform=x.platform) if op["arg"] % 2 else \
+                Remark(line, platform=x.platform)
+            x.insert(op["arg"] % len(x.items), new)
+            how = op["arg"] % 3
+            if how == 0:
+                x.group(x.group_by)
+            elif how == 1:
+                x.port_nr = not x.port_nr
+            else:
+                x.protocol_nr = not x.protocol_nr
+        except DOCUMENTED as ex:
+            self.slots.remove(slot)
+            return type(ex).__name__
+        after = self._idmap(x, "Acl")
+        b2 = {k_: (u, n) for k_, u, n in before["L2"]}
+        a2 = {k_: (u, n) for k_, u, n in after["L2"]}
+        for k_ in b2:
+            if k_ in a2 and a2[k_] != b2[k_]:
+                self.soft_fail("C16", "C16.identity",
+                               f"Acl: entry inserted at {op['arg'] % len(x.items)}, then "
+                               f"regrouped: the AceGroup starting with entry {k_[-4:]} changed "
+                               f"identity {b2[k_]} -> {a2[k_]}", level="L2",
+                               transformation="insert_regroup", cls="Acl")
+                break
+        self.probes["insert_then_regroup"] += 1
+        self.did += 1
+        self.trace.append(("insert_regroup",))
+        # the history does not go on from an ACL with loose entries between blocks
+        self.slots.remove(slot)
+        return "ok"
 
     def _op_retitle(self, op):
         """Edit a heading remark of a grouped ACL (a public, legal change between operations)."""
